@@ -20,7 +20,7 @@ ASSUME_COMMON = [
 ]
 
 # Families whose schedules must not depend on PYTHONHASHSEED (no string-hashed sets).
-HASHSEED_INDEPENDENT = ['c04:queue', 'c05:fail', 'c05:stop', 'c05:timeout', 'c13:par', 'c03:strategy']
+HASHSEED_INDEPENDENT = ['c04:queue', 'c05:fail', 'c05:stop', 'c05:timeout', 'c13:par', 'c03:strategy', 'c10:ckpt']
 
 CHECKS = {
     'C04': {
@@ -103,5 +103,25 @@ CHECKS = {
             'integer aggregate is compared exactly',
             'a batch-level filter is never generated after a re-batching operator'],
         'probes': [],
+    },
+    'C10': {
+        'families': [['c10:ckpt', 1.0]],
+        'runs': {'quick': 12000, 'thorough': 600000},
+        'budget': {'quick': 110, 'thorough': 1500},
+        'level': 'fault_enumeration',
+        'rule': ('each evaluation is one simulated execution with 1-3 crash/restore generations: the iterator '
+                 'is abandoned after a drawn number of delivered batches (cut positions uniform over 0..n), its '
+                 'state is round-tripped through cloudpickle and a freshly built iterator is restored from the '
+                 'bytes; over plain / sharded / nested-sharded SequenceDataSource and (sharded) ShardedIterable, at '
+                 'the data-source level and for fused or chained pipelines with aggregates and num_threads 0..3 '
+                 '(seeded thread schedule decides how far the workers have run ahead at the cut). Non-trivial = at '
+                 'least one crash/restore happened; distinct = distinct event-log digests'),
+        'real': REAL_COMMON + ['cloudpickle round trip of the captured state (the only thing that survives a crash)'],
+        'stub': STUB_COMMON,
+        'assumptions': ASSUME_COMMON + [
+            're-batching operators and sinks are not generated (rows buffered inside a re-batcher are not part '
+            'of the documented state)',
+            'the reference is the uninterrupted sequential run of the same pipeline over the same source'],
+        'probes': ['probe:second_generation_restore', 'probe:checkpoint_of_threaded_pipeline', 'probe:nested_shards'],
     },
 }
